@@ -979,7 +979,76 @@ def replay_threads(case):
     return {"reproduced": bool(failed), "failed": failed[:4], "detail": "; ".join(failed[:3])[:500] or "ok (no interference observed)"}
 
 
-REPLAYERS = {'tables': replay_tables, 'threads': replay_threads, 'chunked': replay_chunked, 'sockread': replay_sockread, 'parseseq': replay_parseseq, 'roundtrip': replay_roundtrip, 'labelopt': replay_labelopt, 'crcseq': replay_crcseq, 'crc': replay_crc, 'construct': replay_construct, 'stream': replay_stream, 'socket': replay_stream, 'parse': replay_parse}
+def replay_setattr(case):
+    from pyrtcm.rtcmmessage import RTCMMessage
+    from pyrtcm.exceptions import RTCMMessageError
+    payload = bytes.fromhex(case['payload'])
+    try:
+        m = RTCMMessage(payload=payload)
+    except Exception as e:  # noqa
+        return {"reproduced": False, "detail": f"payload does not parse: {type(e).__name__}"}
+    kind, val = case['value']
+    value = val if kind == 'int' else eval(val, {})
+    before = (str(m), m.payload, m.identity, m.serialize(), dict(m.__dict__), repr(m))
+    failed = []
+    cands = [value]
+    name = case['name']
+    if kind == 'int' and hasattr(m, name):
+        cur = getattr(m, name)
+        cands += [cur, float(cur) if isinstance(cur, int) and not isinstance(cur, bool) else cur, bytearray(cur) if isinstance(cur, bytes) else cur]
+    for v in cands:
+        try:
+            setattr(m, name, v)
+            failed.append(f"assignment {name} = {v!r} was accepted")
+        except RTCMMessageError:
+            pass
+        except Exception as e:  # noqa
+            failed.append(f"assignment {name} raised {type(e).__name__}")
+        after = (str(m), m.payload, m.identity, m.serialize(), dict(m.__dict__), repr(m))
+        if after != before or any(after[4][k] is not before[4][k] for k in before[4]):
+            failed.append(f"message changed by the attempted assignment of {name}")
+        if failed:
+            break
+    return {"reproduced": bool(failed), "failed": failed, "detail": "; ".join(failed)[:400] or "ok"}
+
+
+def replay_names(case):
+    from pyrtcm.rtcmhelpers import att2idx, att2name, datadesc
+    if 'batch' in case:
+        failed = []
+        for pre in case.get('pre', []):
+            try:
+                datadesc(pre)
+            except Exception:  # noqa
+                pass
+        for b in case['batch']:
+            for nm in b['names']:
+                r = replay_names({'name': nm, 'key': b['key'], 'depth': b['depth']})
+                if r['reproduced']:
+                    failed += r['failed']
+                if len(failed) > 5:
+                    break
+        return {"reproduced": bool(failed), "failed": failed[:6], "detail": "; ".join(failed[:3])[:400] or "ok"}
+    name, key, depth = case['name'], case['key'], case['depth']
+    failed = []
+    rest = name[len(key):]
+    idx = [int(x) for x in rest.split("_")[1:]] if rest else []
+    try:
+        if att2name(name) != key:
+            failed.append(f"att2name({name!r}) = {att2name(name)!r}, field is {key!r}")
+        got = att2idx(name)
+        want = 0 if not idx else idx[0] if len(idx) == 1 else tuple(idx)
+        if got != want:
+            failed.append(f"att2idx({name!r}) = {got!r}, expected {want!r}")
+        d = datadesc(name)
+        if d != ol.tables()['fields'][key][3]:
+            failed.append(f"datadesc({name!r}) = {d!r}")
+    except Exception as e:  # noqa
+        failed.append(f"{type(e).__name__}: {e}")
+    return {"reproduced": bool(failed), "failed": failed, "detail": "; ".join(failed)[:400] or "ok"}
+
+
+REPLAYERS = {'names': replay_names, 'setattr': replay_setattr, 'tables': replay_tables, 'threads': replay_threads, 'chunked': replay_chunked, 'sockread': replay_sockread, 'parseseq': replay_parseseq, 'roundtrip': replay_roundtrip, 'labelopt': replay_labelopt, 'crcseq': replay_crcseq, 'crc': replay_crc, 'construct': replay_construct, 'stream': replay_stream, 'socket': replay_stream, 'parse': replay_parse}
 
 
 def replay(case):
